@@ -51,7 +51,12 @@ pub fn gen_edits(rng: &mut Rng, text: &str, n: usize) -> String {
     let mut cur = text.to_string();
     let mut s = String::new();
     for _ in 0..n {
-        let (lo, hi, ins) = if rng.chance(1, 6) {
+        let (lo, hi, ins) = if rng.chance(1, 12) {
+            // replace everything from the first token (or from inside the leading whitespace) to the end
+            let first = cur.len() - cur.trim_start().len();
+            let lo = if first > 0 && rng.chance(1, 2) { let mut k = 1 + rng.below(first); while !cur.is_char_boundary(k) { k -= 1; } k } else { first };
+            (lo, cur.len(), rng.pick(&["x := 1;", "proc main() {}", "", "// c\n", "y"]).to_string())
+        } else if rng.chance(1, 6) {
             // a keystroke at the very end of the document (the last token's look-ahead is the end of text)
             let key = *rng.pick(&["'", "'", "a", "/", "=", "<", ":", "0", "x", "\\", "n", " ", "\n", "_", "1", "\u{e9}"]);
             (cur.len(), cur.len(), key.to_string())
@@ -105,6 +110,11 @@ pub fn gen_c02(rng: &mut Rng, n: usize, out: &mut Vec<String>) {
             _ => ops_parse::gen_valid_text(rng, 10, true),
         };
         out.push(format!("NEW {}", hex_str(&text)));
+        if i % 16 == 3 {
+            // every request handler on generated programs (valid, and mutated into broken ones), at identifier
+            // and non-identifier positions: a panic in a handler kills the server
+            crate::ops_feat::gen_feature_cases(rng, 1, &["FMT", "HOV", "GOTO", "SIG", "COMP", "FOLD", "SEM", "REFS", "REN", "PREP"], 40, out);
+        }
         if i % 4 == 1 {
             // the document layer: batched content changes (ranged and full-text, each relative to its
             // predecessor) through to_text_changes + replace_range; a panic here kills the broker task
@@ -131,6 +141,14 @@ pub fn run(op: &str, args: &[&str]) -> Option<String> {
         "PROPINC" => {
             let text = unhex_str(args.first()?)?;
             let cs = parse_changes(&args[1..])?;
+            // the text the client holds: the changes applied to the plain string
+            let mut expected = text.clone();
+            for c in &cs {
+                if c.range.start > c.range.end || c.range.end > expected.len() || !expected.is_char_boundary(c.range.start) || !expected.is_char_boundary(c.range.end) {
+                    break;
+                }
+                expected.replace_range(c.range.clone(), &c.text);
+            }
             let d = AnalyzedSource::new(text);
             let u = match std::panic::catch_unwind(move || d.update(cs)) {
                 Ok(u) => u,
@@ -140,7 +158,9 @@ pub fn run(op: &str, args: &[&str]) -> Option<String> {
                 }
             };
             let f = AnalyzedSource::new(u.text.clone());
-            Some(if toks_str(&u.tokens) != toks_str(&f.tokens) {
+            Some(if u.text != expected {
+                "bad:text".into()
+            } else if toks_str(&u.tokens) != toks_str(&f.tokens) {
                 "bad:tokens".into()
             } else if dump::program(&u.ast) != dump::program(&f.ast) {
                 "bad:tree".into()
